@@ -176,7 +176,7 @@ def pieces_of(ex, p, vals):
     return out
 
 
-def prove_prefix(ctx, ex, p, rel, candidates, msg, site):
+def prove_prefix(ctx, ex, p, rel, candidates, msg, site, replay=None):
     """released pieces must be a whole-chunk prefix of one of the candidate genuine streams.
     First a structural argument (piece i is literally the i-th logged plaintext array: only offsets/lengths go to the solver),
     else the general byte-wise oracle."""
@@ -192,6 +192,37 @@ def prove_prefix(ctx, ex, p, rel, candidates, msg, site):
     arr, total = concat_view(ex, p, rel)
     spec = z3.Or(*[prefix_oracle(arr, bv64(0), total, chunks) for chunks in candidates])
     return ctx.prove(ex, p, spec, msg, site)
+
+
+def framed_spec(decoder, cfg, expect, cand_names, extra_cfg=None):
+    """replay spec builder: the model's attacker bytes, AEAD outcomes and genuine chunks -> entry `framed` of /verif/replay"""
+    def f(m):
+        src = m.get('src')
+        if not isinstance(src, dict) or src['len'] > len(src['bytes']):
+            return None
+        spec = {'entry': 'framed', 'decoder': decoder, 'cfg': dict(cfg), 'src': src['bytes'], 'opens': m.get('#opens', []), 'expect': expect, 'cuts': m.get('cuts', [])}
+        for k, v in (extra_cfg or {}).items():
+            if isinstance(m.get(v), list):
+                spec['cfg'][k] = m[v]
+        cands = []
+        for names in cand_names:
+            chunks = []
+            for nme in names:
+                v = m.get(nme)
+                if not isinstance(v, dict) or v['len'] > len(v['bytes']):
+                    return None
+                chunks.append(v['bytes'])
+            cands.append(chunks)
+        spec['candidates'] = cands
+        if '#clock_secs' in m:
+            spec['clock'] = m['#clock_secs']
+        return spec
+    return f
+
+
+def payload_inputs(prefix, stream):
+    """name the genuine chunks so that counterexamples carry their bytes"""
+    return {'%s%d' % (prefix, i): Buf('slice', a, o, l) for i, (a, o, l) in enumerate(stream.payloads)}
 
 
 def make_ss_tcp_job(N, kind, mode, tier):
@@ -218,6 +249,12 @@ def make_ss_tcp_job(N, kind, mode, tier):
         else:
             genuine = req
         ex.inputs = dict(case.inputs)
+        ex.inputs.update(payload_inputs('req', req))
+        ex.inputs.update(payload_inputs('resp', resp))
+        ex.inputs['own_salt'] = Arr(own_salt, 'u8', N)
+        gname, oname = ('resp', 'req') if mode == 'Client' else ('req', 'resp')
+        names = [['%s%d' % (gname, i) for i in range(len(genuine.payloads))]] + ([['%s%d' % (oname, i) for i in range(len(genuine.payloads))]] if legacy else [])
+        rp = framed_spec('ss_tcp', {'N': N, 'kind': kind, 'mode': mode}, 'not_prefix', names, {'own_salt': 'own_salt'})
         results = drive(ex, case.fn, case.args, case.st0, pcs, {'sealed': req.entries + resp.entries}, 5, opt_item)
         full = 0
         nrel = 0
@@ -233,7 +270,7 @@ def make_ss_tcp_job(N, kind, mode, tier):
             # the AEAD-cipher protocol has no direction separation: a reflected stream of the same PSK is another genuine stream (exempt)
             cands = [genuine.payloads] + ([(resp if genuine is req else req).payloads] if legacy else [])
             prove_prefix(ctx, ex, p, rel, cands, 'released bytes are not a prefix of what the genuine %s wrote' % ('server' if mode == 'Client' else 'client'),
-                         case.fn.name + '@released')
+                         case.fn.name + '@released', replay=rp)
             if not legacy and mode == 'Server':
                 # the target address the server would dial is the one the genuine client sealed
                 addr = p.st['#sess'].fields[2]
